@@ -65,13 +65,17 @@ def norm_clauses(d, allowed=None, inside=None):
     return ok
 
 
-def h_gridworld(batch, pmode):
+def h_gridworld(batch, pmode, groups=None):
+    """groups = (absorbing_features, wall_features) as handed to the constructor; None = the usual ('g',), ('#',).  An EMPTY group is legal and means
+    "no such cells": a 'g' / '#' in the layout is then an ordinary (rewarded / enterable) cell."""
+    A_given, W_given = groups if groups is not None else (('g',), ('#',))
+    A_, W_ = tuple(A_given), tuple(W_given)
     p = prob_param('success_prob', pmode)
     step = S.real('step_cost')
     fr = {'g': S.real('reward_g'), 'x': S.real('reward_x')}
     with M.facades(gwm):
         for lay in batch:
-            gw = gwm.GridWorld(list(lay), feature_rewards=dict(fr), absorbing_features=('g',), wall_features=('#',), initial_features=('s',),
+            gw = gwm.GridWorld(list(lay), feature_rewards=dict(fr), absorbing_features=A_given, wall_features=W_given, initial_features=('s',),
                                step_cost=step, success_prob=p, discount_rate=0.9)
             H, W = len(lay), len(lay[0])
             cell = lambda x, y: lay[H - 1 - y][x]
@@ -82,7 +86,7 @@ def h_gridworld(batch, pmode):
                 for x in range(W):
                     s = frozendict({'x': x, 'y': y})
                     okp.append(S.truth(s in sl and gw.location_features.get(s) == (cell(x, y) if cell(x, y) != '.' else None)))   # '.' is the empty (default) cell
-                    okp.append(S.truth((s in gw.walls) == (cell(x, y) == '#') and (s in gw.initial_states) == (cell(x, y) == 's') and (s in gw.absorbing_states) == (cell(x, y) == 'g')))
+                    okp.append(S.truth((s in gw.walls) == (cell(x, y) in W_) and (s in gw.initial_states) == (cell(x, y) == 's') and (s in gw.absorbing_states) == (cell(x, y) in A_)))
             okp.append(S.truth(gw.width == W and gw.height == H))
             S.check('GridWorld:parser-one-state-per-cell-with-its-feature;walls/initial/absorbing-as-marked', S.And(okp), detail=repr(lay))
             okn, okm, okr, oka = [], [], [], []
@@ -97,13 +101,13 @@ def h_gridworld(batch, pmode):
                         okr.append(S.eq(gw.reward(s, a, gwm.TERMINALSTATE), 0))
                         continue
                     x, y = s['x'], s['y']
-                    if cell(x, y) == 'g':
+                    if cell(x, y) in A_:
                         okm.append(S.eq(d.prob(gwm.TERMINALSTATE), 1))
                         okr.append(S.eq(gw.reward(s, a, gwm.TERMINALSTATE), 0))
                         continue
                     nx, ny = x + a['dx'], y + a['dy']
                     ns = frozendict({'x': nx, 'y': ny})
-                    can = (0 <= nx < W and 0 <= ny < H) and cell(nx, ny) != '#' and ns != s
+                    can = (0 <= nx < W and 0 <= ny < H) and cell(nx, ny) not in W_ and ns != s
                     okm.append(S.truth(all((abs(e['x'] - x) + abs(e['y'] - y) <= 1) and e in (s, ns) for e in d.support if not _zero(d.prob(e)))))
                     if can:
                         okm.append(S.eq(d.prob(ns), p))
@@ -340,6 +344,10 @@ def tasks(tier, seed):
         for bi, b in enumerate(chunks(gl, 40)):
             T.append(Task('gridworld/%s/batch%d' % (pm, bi), h_gridworld, (b, pm), tier='B', deadline_s=400))
     T.append(Task('gridworld/defaults', h_gridworld_defaults, (), tier='B'))
+    # explicitly EMPTY (and string-valued) feature groups on layouts that do contain the default symbols
+    gl = [('s#g', '.x.'), ('sg', '#.'), ('s.g',)]
+    for gi, grp in enumerate([((), ('#',)), (('g',), ()), ((), ()), ('', '#'), ('g', ''), (('g', 'x'), ('#',)), ([], ['#'])]):
+        T.append(Task('gridworld/feature-groups/%d' % gi, h_gridworld, (gl, 'open', grp), tier='B', deadline_s=400, note='absorbing=%r walls=%r' % grp))
     wl = list(layouts('.#$@x^v<>', [(1, 1), (1, 2), (2, 1), (1, 3)], need='@')) + (list(layouts('.#$@^<', [(2, 2)], need='@')))
     if tier == 'thorough':
         rnd = _random.Random(seed + 1)
